@@ -4,7 +4,7 @@ use super::interp::*;
 use super::models::*;
 use super::state::*;
 use super::val::*;
-use crate::facts::{inst_name, mono_roots};
+use crate::facts::{inst_name, reachable_instances};
 use crate::jobj;
 use crate::json::J;
 use rustc_middle::ty::{self, Instance, Ty, TyCtxt, TypingEnv};
@@ -54,7 +54,7 @@ pub struct Runner<'tcx> {
 
 impl<'tcx> Runner<'tcx> {
     pub fn new(tcx: TyCtxt<'tcx>) -> Runner<'tcx> {
-        let roots = mono_roots(tcx);
+        let roots = reachable_instances(tcx);
         let names = roots.iter().map(|r| inst_name(tcx, r.0)).collect();
         Runner { ip: Interp::new(tcx), roots, names, cache: BTreeMap::new() }
     }
@@ -222,6 +222,7 @@ impl<'tcx> Runner<'tcx> {
         let saved_names = std::mem::take(&mut self.ip.atom_names);
         let saved_region = (self.ip.region_depth, std::mem::take(&mut self.ip.region_start));
         self.ip.region_depth = 0;
+        let saved_next = std::mem::replace(&mut self.ip.next_atom, 0);
         self.ip.rng_mode = match job.opts.get("rng").map(|s| s.as_str()) {
             Some("ok") => 1,
             Some("err") => 2,
@@ -269,6 +270,7 @@ impl<'tcx> Runner<'tcx> {
         self.ip.stack = saved_stack;
         self.ip.atom_names = saved_names;
         self.ip.region_depth = saved_region.0;
+        self.ip.next_atom = saved_next;
         self.ip.region_start = saved_region.1;
         // returned values must not keep references into the dead synthetic frame
         (joined.map(|v| v.strip_atoms(0)), rendered)
@@ -377,7 +379,12 @@ pub fn run<'tcx>(tcx: TyCtxt<'tcx>) -> String {
     for (k, v) in &rn.ip.leaks {
         leaks.set(k, J::s(v.clone()));
     }
+    let mut prof = J::obj();
+    for (k, (n, t)) in &rn.ip.prof {
+        prof.set(k, J::Arr(vec![J::i(*n as i128), J::i((*t / 1_000_000) as i128)]));
+    }
     jobj! {
+        "prof" => prof,
         "jobs" => J::Arr(out_jobs),
         "sites" => J::Arr(sites),
         "unmodelled" => unm,
